@@ -171,12 +171,6 @@ func c19Suites() []c19Variant {
 func c19WithFeatures(v c19Variant, cid int, srtp, mki, alpn, mutual bool, sess int) c19Variant {
 	v.CID, v.SRTP, v.MKI, v.ALPN, v.Sess = cid, srtp, mki && srtp, alpn, sess
 	v.Mutual = mutual && v.Kind == "cert"
-	if v.Kind == "rsa" {
-		// with a client-side session store a server flight that spans two datagrams (2048-bit RSA
-		// certificate) is mistaken for an abbreviated handshake by flight3Parse and the handshake
-		// never completes (not C19's subject; reported separately) - keep RSA variants store-free
-		v.Sess = 0
-	}
 	v.Name = fmt.Sprintf("%s/cid%d/srtp%v/mki%v/alpn%v/mut%v/sess%d", v.Name, v.CID, c19b(v.SRTP), c19b(v.MKI),
 		c19b(v.ALPN), c19b(v.Mutual), v.Sess)
 
